@@ -94,19 +94,19 @@ template <class AIO> static aiounicast *mk_aio(size_t j, PipeSet &P, const WireM
 	return new AIO(2, j, in, out, keys, aiounicast::aio_scheduler_direct, 0, m.auth, m.enc, m.chunked);
 }
 template <class AIO> static std::string wire_seed(const WireMode &m, Rng &r) {
-	PipeSet P; fcntl(P.fds[0], F_SETFL, O_NONBLOCK); if (std::is_same<AIO, aiounicast_nonblock>::value) fcntl(P.fds[1], F_SETFL, O_NONBLOCK);
+	PipeSet P; fcntl(P.fds[0], F_SETFL, O_NONBLOCK); if (std::is_same<AIO, aiounicast_nonblock>::value) for (int i = 0; i < 10; i++) fcntl(P.fds[i], F_SETFL, O_NONBLOCK);
 	std::unique_ptr<aiounicast> A(mk_aio<AIO>(0, P, m)); mpz_t v; mpz_init(v); std::string w;
 	for (int k = 0; k < 3; k++) { r.mpz_bits(v, 40 + 200 * k); A->Send(v, 1, 1); char buf[65536]; ssize_t n; while ((n = read(P.fds[0], buf, sizeof buf)) > 0) w.append(buf, n); }
 	mpz_clear(v); return w;
 }
 template <class AIO> static int wire_run(const WireMode &m, const std::string &bytes) {
 	PipeSet P; for (int i : {2, 3}) fcntl(P.fds[i], F_SETFL, O_NONBLOCK);
-	if (std::is_same<AIO, aiounicast_nonblock>::value) for (int i : {4, 6, 8}) fcntl(P.fds[i], F_SETFL, O_NONBLOCK);
+	if (std::is_same<AIO, aiounicast_nonblock>::value) for (int i = 0; i < 10; i++) fcntl(P.fds[i], F_SETFL, O_NONBLOCK);
 	std::unique_ptr<aiounicast> B(mk_aio<AIO>(1, P, m));
-	mpz_t v; mpz_init(v); size_t delivered = 0, off = 0, idle = 0;
+	mpz_t v; mpz_init(v); size_t delivered = 0, off = 0, idle = 0; bool closed = false;
 	for (int step = 0; step < 4000 && idle < 6; step++) {
 		if (off < bytes.size()) { ssize_t n = write(P.fds[3], bytes.data() + off, std::min<size_t>(bytes.size() - off, 16384)); if (n > 0) off += n; }
-		else if (P.fds[3] >= 0 && off >= bytes.size()) { close(P.fds[3]); P.fds[3] = open("/dev/null", O_WRONLY); }   // sender went away
+		else if (!closed) { closed = true; close(P.fds[3]); P.fds[3] = open("/dev/null", O_WRONLY); }   // sender went away
 		size_t from = 0;
 		if (B->Receive(v, from, aiounicast::aio_scheduler_direct, 0)) { delivered++; idle = 0; g_sink += mpz_sizeinbase(v, 2); } else if (off >= bytes.size()) idle++;
 	}
